@@ -53,6 +53,8 @@ def configs(prob, tier):
     # option sets that arrive through solvers.options (no options= keyword), one right behind a loose per-call call
     out.append({'kkt': None, 'via': 'global', 'opts': {'feastol': 1e-9, 'abstol': 1e-9, 'reltol': 1e-9}})
     out.append({'kkt': None, 'via': 'global', 'prelude': LOOSE, 'storage': 'sparse'})
+    out.append({'kkt': None, 'poison': dict(LOOSE, maxiters=3)})
+    out.append({'kkt': None, 'opts': {'abstol': 0.0, 'reltol': 1e-6}})
     # G and A given as Python functions together with a user KKT solver (cp wraps them once more for its epigraph form)
     if entry != 'gp':
         out.append({'kkt': None, 'operators': True})
